@@ -208,4 +208,30 @@ def run(ctx):
     # "the same results for every subset of the flags": the rule selected under one subset may not compute with a register nobody
     # wrote where the rule selected under another subset does not (convslq: pmovsxdq under SSE4.1, the unpack sequence without)
     importlib.import_module("rules.c17").two_operand_dest_defined(db, rep, "R-DEST-DEFINED")
+    target_flags_from_request(db, rep)
 
+
+
+def target_flags_from_request(db, rep, rule="R-FLAGS-FROM-REQUEST"):
+    """"Compiling with a subset of the flags emits no instruction beyond that subset": the flag word every rule-set guard and
+    every rule looks at is compiler->target_flags.  It must be what the compile request said - the `flags` argument handed
+    down from orc_program_compile_full - possibly with a back end's own constant mode bit added (c64x-c: NOEXEC).  A store that
+    mixes in what the HOST supports (get_default_flags, the cpuid words) turns `compile for sse2 only` into `compile for
+    whatever this machine has`."""
+    from facts import ASSIGN_OPS
+    n = 0
+    for f in db.all_functions():
+        for st in f.walk():
+            if not (st.k in ("BinaryOperator", "CompoundAssignOperator") and st.op in ASSIGN_OPS and (access_path(st.c[0]) or "").endswith("->target_flags")):
+                continue
+            n += 1
+            rep.saw(f)
+            rhs = strip_casts(st.c[1])
+            params = {p_["name"] for p_ in f.params}
+            ok = rhs is not None and (rhs.v is not None or (rhs.k == "DeclRefExpr" and rhs.name in params))
+            rep.check(ok, rule, where(f), "%s@%s" % (f.name, st.line), "the compiler's flag word is the request's (plus constant mode bits)",
+                      "%s stores `%s` into compiler->target_flags (line %s): the flags a program is compiled for are no longer the caller's - feature "
+                      "bits of the host can enter, and a compile for a subset of the flags selects rule sets beyond it" % (f.name, unparse(st.c[1])[:80], st.line), line=st.line)
+    if n < 2:
+        raise AnalysisBroken("only %d stores to compiler->target_flags found" % n)
+    return n
